@@ -161,7 +161,7 @@ func runC01(r *Run) int {
 		}
 	})
 	// all 8! token orders for seed combinations
-	nseed := r.Pick(2, 8)
+	nseed := r.Pick(4, 64)
 	rng := r.Rng(0)
 	var permEvals atomic.Int64
 	var wg sync.WaitGroup
